@@ -13,12 +13,14 @@
      auth_absent    names never started are absent
    Without HE (known finding D17): auth_names_sub_partial — every listed name is a substring of
    the original plaintext, and so is every byte string a file read delivers. *)
+From MLA Require Import Limit.
 From MLA Require Import Base Stream Blocks Writer Reader EncLayer EncAuth EncAuthStream ReaderAuthSim ReaderAuth
   RoundTripBlocks RoundTripFooter RoundTripReader RoundTripWriter RoundTripRun RoundTripGlue RoundTrip.
 From Coq Require Import ZifyBool ZifyNat ZifyN Permutation.
 Open Scope N_scope.
 
 Section AuthRun.
+  Context {LIM : Limit}.
   Variable FNMAX : N.
   Variables T_START T_CONTENT T_EOA T_EOF : N.
   Variable H : bytes -> bytes.
@@ -177,6 +179,7 @@ End AuthRun.
 
 (* ---------- the encryption reader instance ---------- *)
 Section AuthEnc.
+  Context {LIM : Limit}.
   Variable FNMAX : N.
   Variables T_START T_CONTENT T_EOA T_EOF : N.
   Variable H : bytes -> bytes.
